@@ -208,12 +208,15 @@ impl Options {
   ///
   /// By default, the offset is 0.
   ///
+  /// The ARENA starts at this offset, so the offset must be a multiple of the maximum alignment
+  /// of the ARENA (at least `8`), otherwise opening the file fails with `InvalidInput`.
+  ///
   /// ## Example
   ///
   /// ```
   /// use rarena_allocator::Options;
   ///
-  /// let opts = Options::new().with_offset(30);
+  /// let opts = Options::new().with_offset(32);
   /// ```
   #[inline]
   #[cfg(all(feature = "memmap", not(target_family = "wasm")))]
@@ -425,8 +428,8 @@ impl Options {
   /// ```rust
   /// use rarena_allocator::Options;
   ///
-  /// let opts = Options::new().with_offset(30);
-  /// assert_eq!(opts.offset(), 30);
+  /// let opts = Options::new().with_offset(32);
+  /// assert_eq!(opts.offset(), 32);
   /// ```
   #[inline]
   #[cfg(all(feature = "memmap", not(target_family = "wasm")))]
